@@ -12,6 +12,8 @@ import (
 
 	pb "github.com/evstack/ev-node/types/pb/evnode/v1"
 
+	"github.com/evstack/ev-node/block"
+
 	"verif/harness/sim"
 )
 
@@ -272,7 +274,13 @@ func c09Body(t *testing.T, s *sim.Scn, o *sim.Outcome) {
 		if da.Cur() < first {
 			da.SetCur(first)
 		}
-		f.Retrieve()
+		if s.Cfg["backlog"] == 1 && retrieves == 1 {
+			// the sync loop is far behind (a long catch-up): its input channels are full when the scan hands over
+			f.RetrieveWithBacklog(block.NewHeaderEvent{Header: cloneHeader(blocks[0].Header)}, block.NewDataEvent{Data: cloneData(blocks[0].Data)})
+			o.Count("retrieves-with-full-sync-inbox", 1)
+		} else {
+			f.Retrieve()
+		}
 		if len(f.LoopPanics) > 0 {
 			o.Fail("C09/panic-in-scan", "", i, strings.Join(f.LoopPanics, "; "), "arbitrary blob bytes never crash the scan")
 			return
@@ -407,7 +415,7 @@ func c09Body(t *testing.T, s *sim.Scn, o *sim.Outcome) {
 }
 
 func c09Gen(r *rand.Rand, tier string) *sim.Scn {
-	s := &sim.Scn{Cfg: map[string]int64{"start": r.Int64N(21), "empty": r.Int64N(3), "fmaxpending": []int64{0, 0, 0, 1, 2, 5}[r.IntN(6)], "payload": int64(r.IntN(4) / 3)}}
+	s := &sim.Scn{Cfg: map[string]int64{"start": r.Int64N(21), "empty": r.Int64N(3), "fmaxpending": []int64{0, 0, 0, 1, 2, 5}[r.IntN(6)], "payload": int64(r.IntN(4) / 3), "backlog": int64(r.IntN(30) / 29)}}
 	n := 1 + r.IntN(6)
 	for i := 0; i < n; i++ {
 		v := int64(1 + r.IntN(3))
